@@ -2,7 +2,12 @@ module verifharness
 
 go 1.21
 
-require github.com/pojntfx/stfs v0.0.0
+require (
+	github.com/fclairamb/go-log v0.5.0
+	github.com/pojntfx/stfs v0.0.0
+	github.com/spf13/afero v1.11.0
+	modernc.org/sqlite v1.31.1
+)
 
 require (
 	aead.dev/minisign v0.3.0 // indirect
@@ -12,14 +17,17 @@ require (
 	github.com/cloudflare/circl v1.3.9 // indirect
 	github.com/cosnicolaou/pbzip2 v1.0.3 // indirect
 	github.com/dsnet/compress v0.0.1 // indirect
-	github.com/fclairamb/go-log v0.5.0 // indirect
+	github.com/dustin/go-humanize v1.0.1 // indirect
 	github.com/friendsofgo/errors v0.9.2 // indirect
+	github.com/go-gorp/gorp/v3 v3.1.0 // indirect
 	github.com/gofrs/uuid v4.4.0+incompatible // indirect
+	github.com/google/uuid v1.6.0 // indirect
 	github.com/klauspost/compress v1.17.9 // indirect
 	github.com/klauspost/pgzip v1.2.6 // indirect
 	github.com/mattetti/filebuffer v1.0.1 // indirect
 	github.com/pierrec/lz4/v4 v4.1.21 // indirect
-	github.com/spf13/afero v1.11.0 // indirect
+	github.com/remyoudompheng/bigfft v0.0.0-20230129092748-24d4a6f8daec // indirect
+	github.com/rubenv/sql-migrate v1.7.0 // indirect
 	github.com/spf13/cast v1.6.0 // indirect
 	github.com/volatiletech/inflect v0.0.1 // indirect
 	github.com/volatiletech/null/v8 v8.1.2 // indirect
@@ -29,6 +37,9 @@ require (
 	golang.org/x/crypto v0.25.0 // indirect
 	golang.org/x/sys v0.22.0 // indirect
 	golang.org/x/text v0.16.0 // indirect
+	modernc.org/libc v1.55.6 // indirect
+	modernc.org/mathutil v1.6.0 // indirect
+	modernc.org/memory v1.8.0 // indirect
 )
 
 replace github.com/pojntfx/stfs => /repo
